@@ -569,6 +569,96 @@ def run_family(fam, tier):
             f'{len(unknown)} queries undecided'}
 
 
+def run_typed(tier, want=None):
+    """The documented-identity mutators at every node of the well-sorted
+    scripts of C16's typed generator (other operand shapes and contexts than
+    the families above: binders, nested applications, all theories): the
+    changed assertion must be equivalent to the original one."""
+    import importlib
+    from harness import c15, c16
+    from ddsmt import smtlib, nodeio, nodes, options, mutators, cli
+    from ddsmt.mutator_utils import apply_simp
+    setattr(options, '__PARSED_ARGS', options.parse_options(
+        mutators, ['in.smt2', 'out.smt2', 'cmd']))
+    cli.setup_logging()
+    t0 = time.time()
+    muts = []
+    for mn, cn, _ in FAMILIES.values():
+        muts.append((cn, getattr(importlib.import_module('ddsmt.' + mn),
+                                 cn)()))
+    nq = skipped = nscripts = 0
+    qtime = 0.0
+    bad = None
+    unknown = []
+    samples = []
+    numsets = ((3, 5, 2), (2, 3, 1), (1, 1, 0)) if tier == 'quick' else \
+        ((3, 5, 2), (2, 3, 1), (1, 1, 0), (4, 4, 3), (5, 2, 4), (6, 3, 5))
+    for fname in c16.FAMS:
+        for nums in numsets:
+            if want is not None and want != (fname, list(nums)):
+                continue
+            exprs = c15.typed_script(fname, nums)
+            if exprs is None:
+                continue
+            exprs = list(nodeio.parse_smtlib(
+                nodeio.write_smtlib_to_str(exprs)))
+            nscripts += 1
+            smtlib.collect_information(exprs)
+            ndecl = sum(1 for e in exprs
+                        if not (e.has_ident() and e.get_ident() == 'assert'))
+            decls = ''.join(e.__str__() for e in exprs[:ndecl])
+            for node in list(nodes.dfs(exprs[ndecl:])):
+                for cn, m in muts:
+                    try:
+                        if not m.filter(node):
+                            continue
+                        props = list(m.mutations(node))
+                    except Exception:
+                        continue
+                    for p in props:
+                        new = apply_simp(exprs, p)
+                        if len(new) != len(exprs) or any(
+                                a.__str__() != b.__str__() for a, b in
+                                zip(new[:ndecl], exprs[:ndecl])):
+                            skipped += 1
+                            continue
+                        for a, b in zip(exprs[ndecl:], new[ndecl:]):
+                            if a.__str__() == b.__str__():
+                                continue
+                            tq = time.time()
+                            v, d = decide(decls, a[1].__str__(),
+                                          b[1].__str__())
+                            qtime += time.time() - tq
+                            nq += 1
+                            if len(samples) < 3:
+                                samples.append({'orig': a[1].__str__()[:120],
+                                                'repl': b[1].__str__()[:120],
+                                                'mutator': cn, 'verdict': v})
+                            if v in ('sat', 'sorterror') and bad is None:
+                                bad = {'family': fname, 'nums': list(nums),
+                                       'mutator': cn,
+                                       'orig': a[1].__str__(),
+                                       'repl': b[1].__str__(),
+                                       'verdict': v, 'detail': d}
+                            elif v == 'unknown':
+                                unknown.append({'orig': a[1].__str__(),
+                                                'repl': b[1].__str__()})
+    status = 'VIOLATED' if bad else ('UNKNOWN' if unknown else 'CONFIRMED')
+    if nq == 0 and want is None:
+        status = 'VACUOUS'
+    return {'status': status, 'cex': bad,
+            'exc': {'type': 'Violation', 'msg': str(bad)} if bad else None,
+            'paths': nq, 'paths_ok': nq - len(unknown), 'samples': samples,
+            'solver_checks': nq, 'solver_seconds': round(qtime, 2),
+            'solver_unknown': len(unknown),
+            'queries': {'instances': nscripts, 'proposals_decided': nq,
+                        'proposals_changing_declarations_skipped': skipped,
+                        'unknown': unknown[:5]},
+            'wall_s': round(time.time() - t0, 2),
+            'engine_error': None if not unknown else
+            f'{len(unknown)} queries undecided'}
+
+
 def known_region(fam, inst):
     """Regions of open known findings (KNOWN_FINDINGS.jsonl); instances in a
     region are still decided and counted but not re-reported.  (None open.)"""
@@ -582,6 +672,9 @@ def partitions(tier):
                       'run': (lambda fam=fam: run_family(fam, tier)),
                       'budget_s': 600 if tier == 'quick' else 3000,
                       'bounds': bounds(tier)})
+    parts.append({'name': 'typed', 'kind': 'E2',
+                  'run': (lambda: run_typed(tier)), 'budget_s': 600,
+                  'bounds': {'scripts': 'C16 generator, widths <= 9'}})
     return parts
 
 
@@ -603,6 +696,9 @@ def replay(part, cex):
             if long_ == cex['orig'] and v == 'sorterror':
                 return f'FPShortSort: {long_} -> {short} is a different sort'
         return None
+    if part == 'typed':
+        r = run_typed('thorough', (cex['family'], list(cex['nums'])))
+        return r['exc']['msg'] if r['exc'] else None
     if part == 'mergebw':
         decls, acc, props = mergebw_proposals(tuple(cex['instance']))
         for orig, repl in props:
